@@ -5,17 +5,18 @@ From OsmtV.Conc Require Import StopFlag.
 
 Section Proofs.
   Variable S : Type.
+  Variable pac : bool.
   Variable elim_work : S -> S * elim_out.
   Variable elim_cleanup : S -> S.
   Variable search_init : S -> S * option lbool.
-  Variable prop : S -> S.
+  Variable prop : S -> S * bool.
   Variable rest : S -> S * outcome.
   Variable cancel0 : S -> S.
   Variable restart : S -> S.
 
-  Notation step_ps := (step_ps S elim_work elim_cleanup search_init prop rest cancel0 restart).
-  Notation step := (step S elim_work elim_cleanup search_init prop rest cancel0 restart).
-  Notation run := (run S elim_work elim_cleanup search_init prop rest cancel0 restart).
+  Notation step_ps := (step_ps S pac elim_work elim_cleanup search_init prop rest cancel0 restart).
+  Notation step := (step S pac elim_work elim_cleanup search_init prop rest cancel0 restart).
+  Notation run := (run S pac elim_work elim_cleanup search_init prop rest cancel0 restart).
 
   Definition flag_at (f : flagfn) (c : cfg S) : bool := f (c_steps c) (c_polls c).
 
@@ -193,18 +194,23 @@ Section Proofs.
   Qed.
 
   (* ---------- Theorem B: relative to sound inner steps (C01/C02), ANY behaviour of the flag —
-     set, reset, set again — gives unknown or the right answer, and leaves a good state ---------- *)
+     set, reset, set again — gives unknown or the right answer, and leaves a good state.
+     Needs the source NOT to poll between propagate() finding a conflict and the handling of that
+     conflict (pac = false): cancelUntil(0) after the loop can only be shown to keep the state good when
+     no conflict is pending.  For pac = true see stop_state_refuted below. ---------- *)
   Variable is_sat : Prop.               (* the current assertion stack is satisfiable *)
   Variable Good : S -> Prop.            (* the solver state is consistent with the assertion stack *)
-  Hypothesis C01_C02_elim_work : forall s s' o, Good s -> elim_work s = (s', o) -> Good s' /\ (o = EConflict -> ~ is_sat).
-  Hypothesis good_elim_cleanup : forall s, Good s -> Good (elim_cleanup s).
-  Hypothesis C01_C02_search_init : forall s s' o, Good s -> search_init s = (s', o) ->
-    Good s' /\ (o = Some LTrue -> is_sat) /\ (o = Some LFalse -> ~ is_sat).
-  Hypothesis good_prop : forall s, Good s -> Good (prop s).
-  Hypothesis C01_C02_rest : forall s s' o, Good s -> rest s = (s', o) ->
-    Good s' /\ (o = Ret LTrue -> is_sat) /\ (o = Ret LFalse -> ~ is_sat).
-  Hypothesis good_cancel0 : forall s, Good s -> Good (cancel0 s).
-  Hypothesis good_restart : forall s, Good s -> Good (restart s).
+  Variable NoPending : S -> Prop.       (* no conflict found by propagate() is waiting to be handled *)
+  Definition sound_search : Prop :=
+    (forall s s' o, Good s -> elim_work s = (s', o) -> Good s' /\ (o = EConflict -> ~ is_sat)) /\
+    (forall s, Good s -> Good (elim_cleanup s)) /\
+    (forall s s' o, Good s -> search_init s = (s', o) ->
+       Good s' /\ (o = Some LTrue -> is_sat) /\ (o = Some LFalse -> ~ is_sat) /\ (o = None -> NoPending s')) /\
+    (forall s s' c, Good s -> prop s = (s', c) -> Good s' /\ (c = false -> NoPending s')) /\
+    (forall s s' o, Good s -> rest s = (s', o) ->
+       Good s' /\ (o = Ret LTrue -> is_sat) /\ (o = Ret LFalse -> ~ is_sat) /\ (o = Cont -> NoPending s')) /\
+    (forall s, Good s -> NoPending s -> Good (cancel0 s)) /\
+    (forall s, Good s -> Good (restart s)).
 
   Definition verdict_ok (p : pc) : Prop :=
     match p with
@@ -212,19 +218,36 @@ Section Proofs.
     | PAfterSearch LFalse | PDone LFalse => ~ is_sat
     | _ => True
     end.
-  Definition GoodC (c : cfg S) : Prop := Good (c_st c) /\ verdict_ok (c_pc c).
+  Definition needs_np (p : pc) : bool :=
+    match p with PSearchHead | PAfterProp | PSearchBreak => true | _ => false end.
+  Definition GoodC (c : cfg S) : Prop :=
+    Good (c_st c) /\ verdict_ok (c_pc c) /\ (needs_np (c_pc c) = true -> NoPending (c_st c)).
+
+  Section Sound.
+  Hypothesis Hpac : pac = false.
+  Hypothesis Hsound : sound_search.
 
   Lemma goodc_step : forall f c, GoodC c -> GoodC (step f c).
   Proof.
-    intros f [p s i j] [Hg Hv]. unfold GoodC in *. simpl in *.
-    destruct p as [| | | | | | | | | |r|r]; simpl; try (destruct (f i j); simpl; auto; fail); auto.
-    - destruct (elim_work s) as [s' o] eqn:E. destruct (C01_C02_elim_work _ _ _ Hg E) as [G1 G2].
-      destruct o; simpl; auto.
-    - destruct (search_init s) as [s' o] eqn:E. destruct (C01_C02_search_init _ _ _ Hg E) as (G1 & G2 & G3).
-      destruct o as [[| |]|]; simpl; auto.
-    - destruct (rest s) as [s' o] eqn:E. destruct (C01_C02_rest _ _ _ Hg E) as (G1 & G2 & G3).
-      destruct o as [|[| |]]; simpl; auto.
-    - destruct r; simpl; auto.
+    destruct Hsound as (Hel & Hcl & Hin & Hpr & Hre & Hca & Hrs).
+    intros f [p s i j] (Hg & Hv & Hn). unfold GoodC, StopFlag.step, StopFlag.step_ps in *. simpl in *.
+    destruct p as [| | | | | | | | | |r|r]; simpl.
+    - destruct (f i j); simpl; repeat split; auto; discriminate.
+    - destruct (elim_work s) as [s' o] eqn:E. destruct (Hel _ _ _ Hg E) as [G1 G2].
+      destruct o; simpl; repeat split; auto; discriminate.
+    - repeat split; auto; discriminate.
+    - destruct (f i j); simpl; repeat split; auto; discriminate.
+    - destruct (search_init s) as [s' o] eqn:E. destruct (Hin _ _ _ Hg E) as (G1 & G2 & G3 & G4).
+      destruct o as [[| |]|]; simpl; repeat split; auto; discriminate.
+    - destruct (f i j); simpl; repeat split; auto; discriminate.
+    - destruct (prop s) as [s' c] eqn:E. destruct (Hpr _ _ _ Hg E) as [G1 G2]. rewrite Hpac.
+      destruct c; simpl; repeat split; auto; discriminate.
+    - destruct (f i j); simpl; repeat split; auto; discriminate.
+    - destruct (rest s) as [s' o] eqn:E. destruct (Hre _ _ _ Hg E) as (G1 & G2 & G3 & G4).
+      destruct o as [|[| |]]; simpl; repeat split; auto; discriminate.
+    - repeat split; auto; discriminate.
+    - destruct r; simpl; repeat split; auto; discriminate.
+    - repeat split; auto.
   Qed.
 
   Lemma goodc_run : forall fuel f c, GoodC c -> GoodC (run fuel f c).
@@ -236,11 +259,12 @@ Section Proofs.
   Proof.
     intros fuel f do_simp s r Hg H.
     assert (G : GoodC (run fuel f (entry do_simp s))).
-    { apply goodc_run. split; trivial. unfold entry. destruct do_simp; simpl; trivial. }
-    destruct G as [G1 G2]. unfold result in H.
+    { apply goodc_run. unfold GoodC, entry. destruct do_simp; simpl; repeat split; trivial; discriminate. }
+    destruct G as (G1 & G2 & _). unfold result in H.
     destruct (c_pc (run fuel f (entry do_simp s))); try discriminate. injection H as ->.
     repeat split; trivial; intros ->; exact G2.
   Qed.
+  End Sound.
 
   (* ---------- MainSolver::check ---------- *)
   Variable simplify : S -> S * bool.
@@ -249,7 +273,7 @@ Section Proofs.
   Variable conflict_frame : S -> nat.
   Variable compute_model : S -> S.
   Variable clear_search : S -> S.
-  Notation check := (check S elim_work elim_cleanup search_init prop rest cancel0 restart
+  Notation check := (check S pac elim_work elim_cleanup search_init prop rest cancel0 restart
                            simplify is_ok simp_frame conflict_frame compute_model clear_search).
 
   (* the answer of check-sat under a stop request is unknown or the answer without it *)
@@ -270,36 +294,49 @@ Section Proofs.
       injection R' as ->. destruct r'; intro H; injection H as <- <-; eauto.
   Qed.
 
-  Hypothesis C01_C02_simplify : forall s s' b, Good s -> simplify s = (s', b) -> Good s' /\ (b = false -> ~ is_sat).
-  Hypothesis C01_C02_is_ok : forall s, Good s -> is_ok s = false -> ~ is_sat.
-  Hypothesis good_compute_model : forall s, Good s -> Good (compute_model s).
-  Hypothesis good_clear_search : forall s, Good s -> Good (clear_search s).
+  Definition sound_main : Prop :=
+    (forall s s' b, Good s -> simplify s = (s', b) -> Good s' /\ (b = false -> ~ is_sat)) /\
+    (forall s, Good s -> is_ok s = false -> ~ is_sat) /\
+    (forall s, Good s -> Good (compute_model s)) /\
+    (forall s, Good s -> Good (clear_search s)).
 
   (* frames marked unsat really are; the core is good *)
   Definition GoodM (m : msolver S) : Prop := Good (core m) /\ (last_unsat m = true -> ~ is_sat).
+
+  (* what C25 asks of the state after an interrupted check-sat: whatever the flag did during the
+     first call, a later call (again under any flag behaviour) answers unknown or the truth *)
+  Definition consistent_after_stop : Prop :=
+    forall do_simp fuel1 fuel2 (f g : flagfn) m m' r m'',
+      GoodM m -> check do_simp fuel1 f m = Some (SUnknown, m') -> check do_simp fuel2 g m' = Some (r, m'') ->
+      (r = SSat -> is_sat) /\ (r = SUnsat -> ~ is_sat).
+
+  Section SoundMain.
+  Hypothesis Hpac : pac = false.
+  Hypothesis Hsound : sound_search.
+  Hypothesis Hmain : sound_main.
 
   Theorem check_correct : forall do_simp fuel (f : flagfn) m r m',
     GoodM m -> check do_simp fuel f m = Some (r, m') ->
     (r = SSat -> is_sat) /\ (r = SUnsat -> ~ is_sat) /\ GoodM m'.
   Proof.
+    destruct Hmain as (Hsi & Hok & Hcm & Hcs).
     intros do_simp fuel f m r m' [Hg Hl]. unfold StopFlag.check.
     destruct (last_unsat m) eqn:El.
     { intro H; injection H as <- <-. repeat split; auto; try discriminate. }
     destruct (simplify (core m)) as [s1 undet] eqn:Es.
-    destruct (C01_C02_simplify _ _ _ Hg Es) as [G1 G2].
+    destruct (Hsi _ _ _ Hg Es) as [G1 G2].
     destruct undet; simpl.
     2:{ intro H; injection H as <- <-. repeat split; simpl; auto; try discriminate. }
     destruct (is_ok s1) eqn:Eo; simpl.
-    2:{ intro H; injection H as <- <-. pose proof (C01_C02_is_ok _ G1 Eo). repeat split; simpl; auto; try discriminate. }
+    2:{ intro H; injection H as <- <-. pose proof (Hok _ G1 Eo). repeat split; simpl; auto; try discriminate. }
     destruct (c_pc (run fuel f (entry do_simp s1))) as [| | | | | | | | | |r'|r'] eqn:Ep; try discriminate.
     assert (R : result (run fuel f (entry do_simp s1)) = Some r') by (unfold result; now rewrite Ep).
-    destruct (stop_answer_correct fuel f do_simp s1 r' G1 R) as (A1 & A2 & A3).
+    destruct (stop_answer_correct Hpac Hsound fuel f do_simp s1 r' G1 R) as (A1 & A2 & A3).
     destruct r'; intro H; injection H as <- <-; unfold GoodM; simpl; repeat split; auto; try discriminate.
     all: unfold last_unsat in *; simpl; intros E; rewrite El in E; discriminate.
   Qed.
 
-  (* after an unknown the frame bookkeeping is untouched and the state is good: by check_correct the
-     next check-sat on this stack is right again *)
+  (* after an unknown the frame bookkeeping is untouched and the state is good *)
   Theorem stop_then_state_consistent : forall do_simp fuel (f : flagfn) m m',
     GoodM m -> check do_simp fuel f m = Some (SUnknown, m') ->
     frames_unsat m' = frames_unsat m /\ GoodM m'.
@@ -313,14 +350,13 @@ Section Proofs.
     destruct r'; try discriminate. intro H; injection H as <-. reflexivity.
   Qed.
 
-  Corollary check_after_stop_correct : forall do_simp fuel1 fuel2 (f g : flagfn) m m' r m'',
-    GoodM m -> check do_simp fuel1 f m = Some (SUnknown, m') -> check do_simp fuel2 g m' = Some (r, m'') ->
-    (r = SSat -> is_sat) /\ (r = SUnsat -> ~ is_sat).
+  Corollary check_after_stop_correct : consistent_after_stop.
   Proof.
-    intros until m''. intros HG H1 H2.
+    intros do_simp fuel1 fuel2 f g m m' r m'' HG H1 H2.
     destruct (stop_then_state_consistent _ _ _ _ _ HG H1) as [_ HG'].
     destruct (check_correct _ _ _ _ _ _ HG' H2) as (? & ? & _). auto.
   Qed.
+  End SoundMain.
 
   (* ---------- the lookahead loop ---------- *)
   Variable la_round : S -> S * la_res.
@@ -370,16 +406,102 @@ Theorem flag_discipline : forall atomic : bool,
   if atomic then forall tr, data_race atomic tr = false else exists tr, data_race atomic tr = true.
 Proof. intros [|]; [exact no_race_atomic | exact race_plain_flag]. Qed.
 
+(* ---------- the state after an interrupted search, when the poll sits between propagate() finding a
+   conflict and the handling of that conflict (pac = true, the source today) ----------
+   A toy instance of the skeleton that satisfies every soundness hypothesis (sound_search, sound_main)
+   and still answers sat on an unsatisfiable problem after a stop:
+     state = (pending, lost);  the problem is unsatisfiable (is_sat = False);
+     propagate() finds the level-0 conflict (pending := true);  handling it (rest) answers unsat;
+     cancelUntil(0) on a state with a pending conflict forgets it (lost := true: the trail keeps the
+     falsified clause, nothing will look at it again);  a later search on a `lost` state finds a "model".
+   Good s := lost s = false.  cancel0 keeps Good on states WITHOUT pending conflict - all that can be
+   asked of it - and the stop at the poll after propagate() applies it to a state WITH one. *)
+Definition toy := (bool * bool)%type.      (* (pending, lost) *)
+Definition toy_elim_work (s : toy) : toy * elim_out := (s, EDone).
+Definition toy_id (s : toy) : toy := s.
+Definition toy_init (s : toy) : toy * option lbool := if fst s then (s, Some LFalse) else (s, None).
+Definition toy_prop (s : toy) : toy * bool := if snd s then ((false, true), false) else ((true, false), true).
+Definition toy_rest (s : toy) : toy * outcome :=
+  if fst s then (s, Ret LFalse) else if snd s then (s, Ret LTrue) else (s, Cont).
+Definition toy_cancel0 (s : toy) : toy := if fst s then (false, true) else s.
+Definition toy_simplify (s : toy) : toy * bool := (s, true).
+Definition toy_ok (s : toy) : bool := true.
+Definition toy_frame (s : toy) : nat := 0.
+Definition toy_good (s : toy) : Prop := snd s = false.
+Definition toy_nopending (s : toy) : Prop := fst s = false.
+Definition toy_check (pac : bool) :=
+  check toy pac toy_elim_work toy_id toy_init toy_prop toy_rest toy_cancel0 toy_id
+        toy_simplify toy_ok toy_frame toy_frame toy_id toy_id.
+
+Lemma toy_sound_search :
+  sound_search toy toy_elim_work toy_id toy_init toy_prop toy_rest toy_cancel0 toy_id False toy_good toy_nopending.
+Proof.
+  unfold sound_search, toy_good, toy_nopending, toy_elim_work, toy_id, toy_init, toy_prop, toy_rest, toy_cancel0.
+  repeat split; intros; repeat match goal with s : toy |- _ => destruct s as [[|] [|]] end; simpl in *;
+    try congruence; try tauto;
+    repeat match goal with H : (_, _) = (_, _) |- _ => injection H as <- <- end; simpl; try congruence; try tauto; try discriminate.
+Qed.
+
+Lemma toy_sound_main : sound_main toy False toy_good toy_simplify toy_ok toy_id toy_id.
+Proof.
+  unfold sound_main, toy_good, toy_simplify, toy_ok, toy_id. repeat split; intros; try discriminate; auto;
+    try (injection H0 as <- <-; first [exact H | discriminate]).
+Qed.
+
+Theorem stop_state_refuted : 
+  sound_search toy toy_elim_work toy_id toy_init toy_prop toy_rest toy_cancel0 toy_id False toy_good toy_nopending /\
+  sound_main toy False toy_good toy_simplify toy_ok toy_id toy_id /\
+  ~ consistent_after_stop toy true toy_elim_work toy_id toy_init toy_prop toy_rest toy_cancel0 toy_id False toy_good
+      toy_simplify toy_ok toy_frame toy_frame toy_id toy_id.
+Proof.
+  split; [apply toy_sound_search | split; [apply toy_sound_main |]].
+  intro C.
+  (* first call: the request becomes visible at poll 2 = the poll right after propagate() found the conflict *)
+  specialize (C false 20 20 (stop_at_poll 2) nostop (mkM [false] (false, false)) (mkM [false] (false, true)) SSat
+                (mkM [false] (false, true))).
+  destruct C as [C _].
+  - split; [reflexivity | discriminate].
+  - vm_compute. reflexivity.
+  - vm_compute. reflexivity.
+  - exact (C eq_refl).
+Qed.
+
+(* with the conflict handled before the poll (pac = false) the same toy is fine *)
+Example toy_fixed :
+  toy_check false false 20 (stop_at_poll 2) (mkM [false] (false, false)) = Some (SUnsat, mkM [true] (true, false)).
+Proof. vm_compute. reflexivity. Qed.
+
+(* both directions, indexed by what the translator finds in search() *)
+Theorem stop_state_discipline : forall pac : bool,
+  if pac
+  then exists S elim_work elim_cleanup search_init prop rest cancel0 restart (is_sat : Prop) Good NoPending
+              simplify is_ok simp_frame conflict_frame compute_model clear_search,
+         sound_search S elim_work elim_cleanup search_init prop rest cancel0 restart is_sat Good NoPending /\
+         sound_main S is_sat Good simplify is_ok compute_model clear_search /\
+         ~ consistent_after_stop S pac elim_work elim_cleanup search_init prop rest cancel0 restart is_sat Good
+             simplify is_ok simp_frame conflict_frame compute_model clear_search
+  else forall S elim_work elim_cleanup search_init prop rest cancel0 restart (is_sat : Prop) Good NoPending
+              simplify is_ok simp_frame conflict_frame compute_model clear_search,
+         sound_search S elim_work elim_cleanup search_init prop rest cancel0 restart is_sat Good NoPending ->
+         sound_main S is_sat Good simplify is_ok compute_model clear_search ->
+         consistent_after_stop S pac elim_work elim_cleanup search_init prop rest cancel0 restart is_sat Good
+             simplify is_ok simp_frame conflict_frame compute_model clear_search.
+Proof.
+  intros [|].
+  - do 17 eexists. exact stop_state_refuted.
+  - intros. eapply check_after_stop_correct; eauto.
+Qed.
+
 (* ---------- the scripted instance computes ---------- *)
 Example script_nostop :
-  run_script true 100 nostop [EvElim EMore; EvElim EDone; EvInit None; EvRest Cont; EvRest (Ret LUndef); EvInit None; EvRest (Ret LFalse)]
+  run_script true true 100 nostop [EvElim EMore; EvElim EDone; EvInit None; EvRest Cont; EvRest (Ret LUndef); EvInit None; EvRest (Ret LFalse)]
   = (Some LFalse, 9).
 Proof. vm_compute. reflexivity. Qed.
 Example script_stop_seen :
-  run_script true 100 (stop_at_poll 5) [EvElim EMore; EvElim EDone; EvInit None; EvRest Cont; EvRest (Ret LUndef); EvInit None; EvRest (Ret LFalse)]
+  run_script true true 100 (stop_at_poll 5) [EvElim EMore; EvElim EDone; EvInit None; EvRest Cont; EvRest (Ret LUndef); EvInit None; EvRest (Ret LFalse)]
   = (Some LUndef, 7).
 Proof. vm_compute. reflexivity. Qed.
 Example script_stop_late :
-  run_script true 100 (stop_at_poll 9) [EvElim EMore; EvElim EDone; EvInit None; EvRest Cont; EvRest (Ret LUndef); EvInit None; EvRest (Ret LFalse)]
+  run_script true true 100 (stop_at_poll 9) [EvElim EMore; EvElim EDone; EvInit None; EvRest Cont; EvRest (Ret LUndef); EvInit None; EvRest (Ret LFalse)]
   = (Some LFalse, 9).
 Proof. vm_compute. reflexivity. Qed.
